@@ -77,10 +77,18 @@ def jobs_for(tier, rep):
     for k, d in enumerate(d1 + d2 + d0 + dt):
         ck = cfgkeys[k % len(cfgkeys)] if k % 3 else extra[(k // 3) % len(extra)]
         jobs.append((ck, "parse", d))
+    # every delimiter-dense document (not sampled), alternating the two presets that post-process delimiter runs
+    ld = gen.docs("LD", tier, rep, wrapname="WrapD")
+    dcfg = [gen.cfg_key(c) for c in ({"preset": "js-default", "on": [], "off": [], "opts": []},
+                                     {"preset": "commonmark", "on": ["strikethrough"], "off": [], "opts": []})]
+    for k, d in enumerate(ld):
+        jobs.append((dcfg[k % 2], "parse", d))
+        if "~" in d:
+            jobs.append((dcfg[1 - k % 2], "parse", d))
     for k, d in enumerate(gen.sample(d2 + d0, 8000 if tier == "quick" else 80000, C.SEED + 3)):
         jobs.append((cfgkeys[k % len(cfgkeys)], "parseInline", d))
     rep.cov["bounds"] = {"L1_enumerated": len(l1), "L2_enumerated": len(l2), "L0_enumerated": len(l0),
-                         "configs_enumerated": len(cfgs), "executed": len(jobs), "unicode_twin_docs": len(dt), "configs_used": len(cfgkeys) + len(extra)}
+                         "configs_enumerated": len(cfgs), "executed": len(jobs), "unicode_twin_docs": len(dt), "delimiter_dense_docs_all_executed": len(ld), "configs_used": len(cfgkeys) + len(extra)}
     rep.cov["exhaustive"] = False
     return jobs
 
